@@ -13,6 +13,8 @@ import (
 	"strings"
 	"syscall"
 	"time"
+
+	"github.com/pkg/xattr"
 )
 
 const (
@@ -607,11 +609,11 @@ func vpFileReadDir(f *os.File, n int) ([]os.DirEntry, error) { return vpReadDir(
 func vpXattrLGet(path, name string) ([]byte, error) {
 	_, _, n, err := vpWalkTo(path, false, 0)
 	if err != nil || n == nil {
-		return nil, vpErr("lgetxattr", path, os.ErrNotExist)
+		return nil, &xattr.Error{Op: "xattr.lget", Path: path, Name: name, Err: syscall.ENOENT}
 	}
 	v, ok := n.xattrs[name]
 	if !ok {
-		return nil, vpErr("lgetxattr", path, syscall.ENODATA)
+		return nil, &xattr.Error{Op: "xattr.lget", Path: path, Name: name, Err: syscall.ENODATA}
 	}
 	return append([]byte(nil), v...), nil
 }
@@ -622,7 +624,10 @@ func vpXattrLSet(path, name string, data []byte) error {
 	}
 	_, _, n, err := vpWalkTo(path, false, 0)
 	if err != nil || n == nil {
-		return vpErr("lsetxattr", path, os.ErrNotExist)
+		return &xattr.Error{Op: "xattr.lset", Path: path, Name: name, Err: syscall.ENOENT}
+	}
+	if n.kind == vpKLink {
+		return &xattr.Error{Op: "xattr.lset", Path: path, Name: name, Err: syscall.EPERM} // Linux: no user xattrs on symlinks
 	}
 	if n.xattrs == nil {
 		n.xattrs = map[string][]byte{}
